@@ -224,7 +224,79 @@ def _anc(n):
         p = parent(p)
 
 
+DMF = "graphiq/backends/density_matrix/functions.py"
+
+
+def rule_phase_pivot(ctx: Ctx) -> None:
+    """phase.pivot: check_equivalent_unitaries fixes the global phase by dividing one entry of the first matrix by the same
+    entry of the second; the entry's position must be provably a non-zero entry of the divisor matrix: taken from
+    np.nonzero(<divisor matrix>) / np.argwhere, or the argmax of its absolute values.  An argmax of the complex matrix itself
+    orders entries by real part, so a structural zero beats -1 or -i and the phase becomes nan."""
+    repo = ctx.repo
+    m = repo.module(DMF)
+    fn = repo.anchor(DMF, "check_equivalent_unitaries")
+    ctx.touch(m, fn)
+    env = {}
+    for st in ast.walk(fn):
+        if isinstance(st, ast.Assign) and len(st.targets) == 1:
+            t = st.targets[0]
+            if isinstance(t, ast.Name):
+                env[t.id] = st.value
+            elif isinstance(t, ast.Tuple):
+                for k, e in enumerate(t.elts):
+                    if isinstance(e, ast.Name):
+                        env[e.id] = ("tuple", k, st.value)
+    divs = [b for b in ast.walk(fn) if isinstance(b, ast.BinOp) and isinstance(b.op, ast.Div) and isinstance(b.right, ast.Subscript)
+            and isinstance(b.right.value, ast.Name) and b.right.value.id in func_params(fn)]
+    if not divs:
+        raise AnalysisError("check_equivalent_unitaries: global-phase division by a matrix entry not found")
+    for b in divs:
+        mat = b.right.value.id
+        idx = b.right.slice.elts if isinstance(b.right.slice, ast.Tuple) else [b.right.slice]
+        if norm(b.left) != norm(b.right).replace(mat, norm(b.left.value) if isinstance(b.left, ast.Subscript) else "?", 1):
+            ctx.fail("phase.pivot", m, b, f"`{short(b)}`: numerator and denominator are not the same entry of the two matrices",
+                     func="check_equivalent_unitaries", construct="check_equivalent_unitaries: phase entries differ")
+            continue
+        why = None
+        ks = set()
+        for pos, ix in enumerate(idx):
+            d = env.get(ix.id) if isinstance(ix, ast.Name) else None
+            if d is None:
+                raise AnalysisError(f"check_equivalent_unitaries: index `{short(ix)}` of the phase entry not resolved")
+            if isinstance(d, tuple):  # r, c = f(...)
+                _, k, v = d
+                good = (isinstance(v, ast.Call) and call_name(v) == "np.unravel_index" and len(v.args) == 2 and norm(v.args[1]) == f"{mat}.shape"
+                        and k == pos and isinstance(v.args[0], ast.Call) and call_name(v.args[0]) in ("np.argmax", "np.nanargmax"))
+                if good:
+                    inner = v.args[0].args[0]
+                    if isinstance(inner, ast.Call) and call_name(inner) in ("np.abs", "np.absolute", "abs") and norm(inner.args[0]) == mat:
+                        continue
+                    why = (f"the position is the argmax of `{short(inner)}`; numpy orders complex entries by real part, then imaginary part, so a "
+                           f"zero entry beats -1 and -i: for [[0,-i],[-1,0]] (= P·Y, one of the 24 Cliffords) the pivot is a zero, the phase is nan "
+                           f"and the matrix is not recognised as equivalent to itself")
+                else:
+                    raise AnalysisError(f"check_equivalent_unitaries: provenance `{short(v)}` of the phase entry position not recognised")
+            else:
+                # nz[pos][k] with nz = np.nonzero(mat)
+                ok = False
+                if isinstance(d, ast.Subscript) and isinstance(d.value, ast.Subscript) and isinstance(d.value.value, ast.Name):
+                    src = env.get(d.value.value.id)
+                    if isinstance(src, ast.Call) and call_name(src) == "np.nonzero" and norm(src.args[0]) == mat and norm(d.value.slice) == str(pos):
+                        ok = True
+                        ks.add(norm(d.slice))
+                if not ok:
+                    why = f"index `{short(ix)}` = `{short(d)}` is not component {pos} of np.nonzero({mat})"
+        if why is None and len(ks) > 1:
+            why = f"row and column are taken from different non-zero entries ({sorted(ks)})"
+        if why:
+            ctx.fail("phase.pivot", m, b, f"check_equivalent_unitaries divides by `{short(b.right)}`, which is not provably non-zero: {why}",
+                     func="check_equivalent_unitaries", construct="check_equivalent_unitaries: phase pivot not provably non-zero")
+        else:
+            ctx.ok("phase.pivot", m, b, what=f"global phase taken at a provably non-zero entry of {mat}")
+
+
 def run(ctx: Ctx) -> None:
+    rule_phase_pivot(ctx)
     rule_clifford24(ctx)
     rule_order_wrapper(ctx)
     rule_expand(ctx)
@@ -233,6 +305,7 @@ def run(ctx: Ctx) -> None:
 
 
 KNOCKOUTS = [
+    Knockout("phase-pivot-mixed", DMF, sub_once("    column = nonzero[1][0]\n", "    column = nonzero[1][-1]\n"), "phase.pivot", "not provably non-zero"),
     Knockout("E5-duplicate", OPS, sub_once("        [Hadamard, Phase],\n", "        [Phase, Phase, Phase, Phase],\n"), "table.clifford24", "duplicate"),
     Knockout("E5-matrix-map", OPS, sub_once("        Phase.__name__: dmf.phase(),", "        Phase.__name__: dmf.phase_dag(),"), "table.clifford24", "Phase"),
     Knockout("F1-unwrap-not-reversed", OPS, sub_nth("        return gates[::-1]", "        return gates", 0), "order.wrapper", "unwrap"),
